@@ -278,6 +278,28 @@ func checkC06(r *Run) {
 			}
 		})
 		r.Check(okDup, "duplicate-tag", "serve: a duplicate tag is answered with Rerror(duplicate tag) carrying the request's tag", lk.Pos(), "no duplicate-tag error reply on the found edge")
+		// nothing else is done for a request whose tag is outstanding: every other reply built for the received
+		// request, and the flush helper, sit on the not-found edge (a Tflush reusing an outstanding tag is a duplicate too)
+		nOther := 0
+		eachInstr(sp.serve, func(in ssa.Instruction) {
+			c, ok := in.(*ssa.Call)
+			if !ok {
+				return
+			}
+			n := calleeName(&c.Call)
+			isReply := (n == "p9p.newFcall" || n == "p9p.newErrorFcall") && tagOwner(c.Call.Args[0]) == sp.reqVal
+			isFlush := n == "(p9p.reqMap).remove"
+			if !isReply && !isFlush {
+				return
+			}
+			if n == "p9p.newErrorFcall" && onEdge(c, true) {
+				return // the duplicate-tag reply itself
+			}
+			nOther++
+			r.Check(onEdge(c, false), "duplicate-tag", "serve: "+n+" for the received request only when its tag is not outstanding", c.Pos(),
+				"a request (e.g. Tflush) that reuses an outstanding tag is acted upon and answered instead of being refused as duplicate: the original request is disturbed / two replies share a tag")
+		})
+		r.Floor("duplicate-tag", nOther, 3, "replies/flush handling on the not-found edge")
 	}
 
 	c06ErrorFcall(r)
@@ -337,6 +359,9 @@ func checkC06(r *Run) {
 		}
 	})
 	r.Check(nW == 1 && nR == 1, "single-writer", "serve: one reader and one writer goroutine", sp.serve.Pos(), fmt.Sprintf("%d writers, %d readers", nW, nR))
+
+	// each request frame is a fresh object handed to exactly one handler
+	checkFreshFrame(r, p.Fn("p9p:(*conn).read"), "fresh-frame")
 
 	// (6) dispatch table
 	checkDispatchTable(r, "dispatch")
@@ -691,6 +716,42 @@ func checkC07(r *Run) {
 				}
 			}
 		}
+	}
+	// the entry is deleted only for the request that completed: every delete in the completion branch is
+	// dominated by the same found+identity test as the forward
+	if cb != nil {
+		nDel := 0
+		eachInstr(sp.serve, func(in ssa.Instruction) {
+			c, ok := in.(*ssa.Call)
+			if !ok {
+				return
+			}
+			b, ok := c.Call.Value.(*ssa.Builtin)
+			if !ok || b.Name() != "delete" || !sp.tags(c.Call.Args[0]) || !(cb == c.Block() || cb.Dominates(c.Block())) {
+				return
+			}
+			nDel++
+			okF, okI := false, false
+			for _, cd := range condsAtInstr(c) {
+				nc := normCond(cd)
+				if ex, ok := nc.V.(*ssa.Extract); ok && ex.Index == 1 && nc.Truth {
+					if l, ok := ex.Tuple.(*ssa.Lookup); ok && sp.tags(l.X) {
+						okF = true
+					}
+				}
+				if bo, ok := nc.V.(*ssa.BinOp); ok && ((bo.Op == token.EQL && nc.Truth) || (bo.Op == token.NEQ && !nc.Truth)) && lk != nil {
+					active := resultN(lk, 0)
+					for _, pair := range [][2]ssa.Value{{bo.X, bo.Y}, {bo.Y, bo.X}} {
+						if derivesFrom(pair[0], active, 4) && !isTagLoad(pair[0]) && derivesFromCompletion(pair[1], sp.compVal) && !isTagLoad(pair[1]) {
+							okI = true
+						}
+					}
+				}
+			}
+			r.Check(okF && okI, "late-completion", "serve: a completion removes only the table entry of the request that produced it", c.Pos(),
+				"the late completion of a flushed request deletes the entry of a newer request reusing the tag: that request's reply is then dropped and it can no longer be flushed or cancelled")
+		})
+		r.Floor("late-completion", nDel, 1, "table deletion in the completion branch")
 	}
 	r.Check(okIdent, "late-completion", "serve: a completion is forwarded only if the table entry belongs to the request that produced it (identity, not tag)", fwd.Pos(),
 		"completions are matched by tag only: after Tflush + reuse of the tag, the flushed request's late reply is sent as the new request's reply and the new request's entry is consumed (ABA)")
